@@ -62,3 +62,15 @@ impl LazyUpdate {
     #[verifier::external_body]
     pub fn maintain(&self, world: &mut World) { unimplemented!() }
 }
+
+// TRUSTED COMPOSITION (used only by World::delete_all): `(&entities).join().collect::<Vec<_>>()` yields, in ascending index
+// order, the current handle of every index in alive ∪ raised. Justification: Join::join = JoinIter::new, JoinIter::next and the
+// entities member's open/get are verified in unit `join`; Iterator::collect calls next until None (std).
+#[verifier::external_body]
+pub fn collect_entities_join(ents: &EntitiesRes) -> (r: Vec<Entity>)
+    requires ents.alloc.wf(), ents.alloc.headroom_n(2),
+    ensures
+        r@.len() == sorted_seq(ents.alloc.alive@ + ents.alloc.raised@).len(),
+        forall|j: int| 0 <= j < r@.len() ==> (#[trigger] r@[j]).0 == sorted_seq(ents.alloc.alive@ + ents.alloc.raised@)[j]
+            && r@[j].1.0@ == ents.alloc.cur_gen(r@[j].0),
+{ unimplemented!() }
